@@ -290,6 +290,15 @@ def main():
             print('VIOLATION property=%s replay=%s no-failing-input-found' % (
                 pid, write_replay('%s-%d-coqchk.json' % (pid, seed), dict(property=pid, what='coqchk rejected the compiled proofs', log=out[-3000:]))))
             exit_code = 1; violations += 1
+    if tier == 'thorough' and ok_build and (C.VERIF / 'harness' / 'links_check.sh').exists():
+        # model coherence layer: the overlapping models of the properties must still coincide (notes/Links.md)
+        t1 = time.time()
+        rc, out = C.sh('bash /verif/harness/links_check.sh', timeout=2400)
+        cov['links'] = dict(rc=rc, summary=out.strip().splitlines()[-1] if out.strip() else '', wall_s=round(time.time() - t1, 1))
+        if rc != 0:
+            print('VIOLATION property=%s replay=%s no-failing-input-found' % (
+                pid, write_replay('%s-%d-links.json' % (pid, seed), dict(property=pid, what='a model-coherence link theorem (coq/theories/Links) no longer builds: two models of the same Python code have diverged', broken='theories/Links/All.v', log=out[-3000:]))))
+            exit_code = 1; violations += 1
     ev = dict(property_id=pid, tier=tier, seed=seed, level='proof', coverage=cov,
               assumptions=list(getattr(mod, 'ASSUMPTIONS', [])),
               wall_s=round(time.time() - t0, 2), violations=violations)
